@@ -177,6 +177,9 @@ func (zns *ZnPMServer) StartMaster(connUrl string, cfg ZnPMServerConfig) error {
 
 // // fork child processes
 func (zns *ZnPMServer) spawnProcess(cfg ZnPMServerConfig, l *net.TCPListener, p *pipe) error {
+	if handled, err := zns.verifSpawn(p); handled {
+		return err
+	}
 	// prepare net.Conn file to transfer to child processes
 	lf, err := l.File()
 	if err != nil {
@@ -254,6 +257,7 @@ func (zns *ZnPMServer) readNamedPipe(pipe *pipe) {
 // summon all writing actions into one goroutine to ensure thread-safe on writing.
 func (zns *ZnPMServer) maintainChildState(cfg ZnPMServerConfig, ln *net.TCPListener, p *pipe) {
 	for {
+		zns.verifTick()
 		select {
 		case aw := <-zns.addChan:
 			zns.childs[aw.pid] = aw
